@@ -72,6 +72,22 @@ func (c *Ctx) structLeaves(t types.Type) []heapRef {
 	return out
 }
 
+// ownLeaves: the fields a struct type declares itself (not those of embedded structs).
+func (c *Ctx) ownLeaves(n *types.Named) []heapRef {
+	st, _ := n.Underlying().(*types.Struct)
+	var out []heapRef
+	for i := 0; st != nil && i < st.NumFields(); i++ {
+		f := st.Field(i)
+		if f.Embedded() {
+			if _, isStruct := f.Type().Underlying().(*types.Struct); isStruct {
+				continue
+			}
+		}
+		out = append(out, c.fieldLeaves(n, f)...)
+	}
+	return out
+}
+
 func (c *Ctx) elemLeafRefs(elem types.Type) []heapRef {
 	var out []heapRef
 	for _, lf := range c.leaves(elem) {
@@ -131,6 +147,43 @@ func (e *Engine) implementers(iface *types.Interface) []*types.Named {
 	sort.Strings(names)
 	for _, k := range names {
 		out = append(out, byName[k])
+	}
+	return out
+}
+
+// embedders lists the struct types that embed n by value as their first field (same object reference).
+func (e *Engine) embedders(n *types.Named) []*types.Named {
+	var out []*types.Named
+	var names []string
+	by := map[string]*types.Named{}
+	for _, pi := range e.ByPath {
+		sc := pi.P.Types.Scope()
+		for _, nm := range sc.Names() {
+			tn, ok := sc.Lookup(nm).(*types.TypeName)
+			if !ok {
+				continue
+			}
+			t, ok := tn.Type().(*types.Named)
+			if !ok {
+				continue
+			}
+			st, ok := t.Underlying().(*types.Struct)
+			if !ok {
+				continue
+			}
+			for i := 0; i < st.NumFields(); i++ {
+				f := st.Field(i)
+				if f.Embedded() && types.Identical(f.Type(), n) {
+					k := namedKey(t)
+					by[k] = t
+					names = append(names, k)
+				}
+			}
+		}
+	}
+	sort.Strings(names)
+	for _, k := range names {
+		out = append(out, by[k])
 	}
 	return out
 }
@@ -276,6 +329,12 @@ func (c *Ctx) footprintEntries(v *Val, qvars []Term, guard Term, src string) []M
 		var out []ModEntry
 		for _, e := range sf.Body.(*SCall).Args {
 			out = append(out, c.evalModEntry(e, qvars, g)...)
+		}
+		// the object may be the embedded part of a larger struct (same reference): the other fields of that
+		// struct belong to the same footprint
+		for _, emb := range c.E.embedders(n) {
+			ge := And(g, Eq(App(SInt, "dyntype", v.T), IntLit(int64(c.E.typeTag(namedKey(emb))))))
+			out = append(out, ModEntry{qvars: qvars, guard: ge, id: v.T, heaps: c.ownLeaves(emb), src: src})
 		}
 		return out
 	}
@@ -808,18 +867,8 @@ func (c *Ctx) callWithLiteral(cf, callerFr *Frame, ct *Contract, cb *CallbackSpe
 			root.Ghost[g.Name] = cf.Ghost[g.Name]
 		}
 	}
-	for _, g := range ct.GhostVars {
-		saved[g.Name] = root.Ghost[g.Name]
-	}
-	defer func() {
-		for n, v := range saved {
-			if v == nil {
-				delete(root.Ghost, n)
-			} else {
-				root.Ghost[n] = v
-			}
-		}
-	}()
+	// the callee's ghost state stays visible to the caller's later assertions and lemma hints
+	_ = saved
 	expose()
 	inCaller := func(f func()) {
 		sv := c.Fr
@@ -925,7 +974,11 @@ func (c *Ctx) callWithLiteral(cf, callerFr *Frame, ct *Contract, cb *CallbackSpe
 			newGhost[g.Name] = c.evalSpec(g.E)
 		}
 		for n, v := range newGhost {
+			root.Ghost[n+"$pre"] = cf.Ghost[n] // value before this call of the literal (for lemma hints)
 			cf.Ghost[n] = v
+		}
+		for i, a := range args {
+			root.Ghost[fmt.Sprintf("$cbarg%d", i)] = a
 		}
 		c.bound = savedBound
 		expose()
